@@ -2,8 +2,8 @@
    All statements are about the real-number instance (RNum) of model/C06_Model.v.
    [swF] = the repaired behaviour (both switches on); [conv] = the altitude -> flight-level conversion, a
    parameter here; the conversion regenerated from the source is discharged in link/C06_Link_F4*.v. *)
-From Coq Require Import List Reals Bool Arith.
-From AV Require Import lib.Num model.C06_Model proofs.C06_Lists proofs.C06_Proofs proofs.C06_Continuity proofs.C06_PTF proofs.C06_Witness.
+From Coq Require Import List Reals Bool Arith PrimFloat.
+From AV Require Import lib.Num lib.FloatMath model.C06_Model proofs.C06_Lists proofs.C06_Proofs proofs.C06_Continuity proofs.C06_PTF proofs.C06_Witness.
 Import ListNotations.
 Local Open Scope R_scope.
 
@@ -103,7 +103,11 @@ Theorem C06_evaluate_is_cell_value :
 Proof. exact evaluate_is_cell_value. Qed.
 Print Assumptions C06_evaluate_is_cell_value.
 
-(* (4) the outcome depends on the altitude only through the flight level; table, phase, level, mass decide it *)
+(* (4) the outcome depends on the altitude only through the flight level; table, phase, level, mass decide it.
+       NOTE: this holds by construction -- the model is a pure function, it has no state to depend on.  It says nothing
+       about the implementation's lazily built per-table interpolator cache (or any other process state): that the
+       real evaluate() is history-free is established only by the correspondence, in particular by the `session` cases
+       (several models with one grid in one process, re-loads, one AircraftState object reused across models). *)
 Theorem C06_depends_only_on_alt_mass_phase :
   forall sw (conv conv' : R -> R) rows p alt alt' q,
     conv alt = conv' alt' ->
@@ -286,6 +290,38 @@ Theorem C06_incomplete_grid_is_refused :
   forall sw rows p, sw_set sw = true -> ~ full_grid (@subset RNum p rows) -> exists e, @load RNum sw rows = Some e.
 Proof. exact incomplete_grid_is_refused. Qed.
 Print Assumptions C06_incomplete_grid_is_refused.
+
+(* load-time validity + the phase's own mass count give evaluation-time validity of the phase sub-table *)
+Theorem C06_phase_valid_of_load :
+  forall sw (rows : list (row RNum)) p,
+    @load RNum sw rows = None -> @subset RNum p rows <> [] ->
+    length (@masses RNum (@subset RNum p rows)) = match p with Descent => 1%nat | _ => 3%nat end ->
+    @validate RNum sw (@subset RNum p rows) = None.
+Proof. exact phase_valid_of_load. Qed.
+Print Assumptions C06_phase_valid_of_load.
+
+(* observation O2: the mass count of a phase is NOT checked at load.  A table whose climb block is a complete grid over
+   two masses loads, and its first climb evaluation is rejected with the mass-count error *)
+Theorem C06_wrong_phase_mass_count_loads_then_rejects :
+  exists rows : list (row RNum),
+    @load RNum swF rows = None /\
+    @evaluate RNum swF (fun x => x) rows Climb 0 (@MVal RNum 1) = @Rej RNum EMassCount.
+Proof. exact (ex_intro _ w_o2 wrong_mass_count_loads_then_rejects). Qed.
+Print Assumptions C06_wrong_phase_mass_count_loads_then_rejects.
+
+(* FC06e (known): C06_node_exact_in_metres needs [conv (f * c) = f], true over R for conv = (/ c), false in binary64.
+   On the floating-point instance of the same model text, with c = units.FL_TO_METERS as a double: 230 * c / c > 230, and
+   a validated table whose top level is 230 rejects the state "level 230 in metres, tabulated mass" as out of bounds. *)
+Theorem C06_node_exact_in_metres_binary64_refuted :
+  exists (rows : list (row FNum)) (r : row FNum),
+    @validate FNum swF (@subset FNum Cruise rows) = None /\
+    In r (@subset FNum Cruise rows) /\
+    PrimFloat.ltb (r_fl r) (@alt_to_fl_div FNum FLM_f (PrimFloat.mul (r_fl r) FLM_f)) = true /\
+    @evaluate FNum swF (@alt_to_fl_div FNum FLM_f) rows Cruise (PrimFloat.mul (r_fl r) FLM_f) (@MVal FNum (r_mass r))
+      = @Rej FNum (EBounds 0) /\
+    @evaluate FNum swF (fun x => x) rows Cruise (r_fl r) (@MVal FNum (r_mass r)) = @Ok FNum (r_tas r) (r_rocd r) (r_ff r).
+Proof. exact (ex_intro _ w_f230 (ex_intro _ (@mkRow FNum 230 2 6 0 5)%float node_exact_in_metres_binary64_refuted)). Qed.
+Print Assumptions C06_node_exact_in_metres_binary64_refuted.
 
 (* ---- the behaviour before the repairs, kept as documentation of the findings ---- *)
 
